@@ -111,3 +111,19 @@ Corollary export_import_reachable (s0 : server) (seed0 seed1 : bytes) (h : list 
   server_from_bincode (server_to_bincode (after F s0 h) ++ rest) = Some (after F s0 h).
 Proof. intros. apply server_roundtrip. eapply after_server_ok; eassumption. Qed.
 End SrvReach.
+
+(* requests are answered alike before and after any punctures that do not touch the requested tag *)
+Section Hist.
+Variable F : list N -> list N.
+Variable G : grp.
+Theorem eval_history_independent (s0 : server) (seed0 seed1 : bytes) (h : list N) (p : bytes) (md : N) (v : bool) (r : Z) :
+  sv_ggm s0 = ginit bytes seed0 seed1 -> ~ In (md_bits md) (map md_bits h) ->
+  server_eval F G (after F s0 h) p md v r = server_eval F G s0 p md v r.
+Proof.
+  intros Hg Hn. rewrite (eval_after F G s0 seed0 seed1 h p md v r Hg).
+  pose proof (eval_after F G s0 seed0 seed1 [] p md v r Hg) as E0. change (after F s0 []) with s0 in E0. rewrite E0.
+  destruct (negb (g_valid G p)); [reflexivity|]. destruct (pk_get (pk_md (sv_pk s0)) md); [|reflexivity].
+  destruct (in_dec_bits (md_bits md) (map md_bits h)) as [Hi|_]; [contradiction|].
+  cbn [map]. destruct (in_dec_bits (md_bits md) []) as [[]|_]. reflexivity.
+Qed.
+End Hist.
